@@ -7,6 +7,15 @@ Open Scope N_scope.
 Local Ltac Zify.zify_post_hook ::= Z.div_mod_to_equations.
 
 (* ---------------------------------------------------------------------------------------------- *)
+(** * the bitwise forms of truncation and carry *)
+
+Lemma wrap64_w64 x : wrap64 x = w64 x.
+Proof. unfold wrap64, w64. change 18446744073709551615 with (N.ones 64). now rewrite N.land_ones. Qed.
+
+Lemma carry64_div x : carry64 x = x / M64.
+Proof. unfold carry64, M64. now rewrite N.shiftr_div_pow2. Qed.
+
+(* ---------------------------------------------------------------------------------------------- *)
 (** * little-endian loads *)
 
 Lemma le_val_mod l : le_val l mod 65535 = sum16le l mod 65535.
@@ -134,7 +143,7 @@ Proof.
   - lia.
   - split; [reflexivity|]. f_equal. lia.
   - destruct (IH ws) as [L E]; [lia|]. fold (lsum (vpaddq acc ws)). fold (lsum acc). fold (lsum ws).
-    split; [now rewrite L|]. unfold w64. fold M64.
+    split; [now rewrite L|]. rewrite wrap64_w64. unfold w64. fold M64.
     rewrite N.add_mod_idemp_l by discriminate.
     rewrite <- N.add_mod_idemp_r by discriminate. rewrite E. rewrite N.add_mod_idemp_r by discriminate.
     f_equal. lia.
@@ -192,7 +201,7 @@ Proof.
   assert (LY : length Y = 4%nat) by (rewrite Lc, La; exact L4).
   clearbody Y.
   destruct Y as [|a [|b [|c [|d [|e Y]]]]]; try discriminate LY.
-  cbn [firstn skipn vpaddq rev app hd]. rewrite w64_idem_l, w64_idem_r.
+  cbn [firstn skipn vpaddq rev app hd]. rewrite !wrap64_w64. rewrite w64_idem_l, w64_idem_r.
   unfold w64. fold M64. rewrite <- EY. cbn [lsum fold_right]. f_equal. lia.
 Qed.
 
@@ -412,6 +421,12 @@ Lemma rfc1071_range buf init :
 Proof.
   unfold rfc1071. split; [apply fold16_le|]. rewrite fold16_0_iff, <- sum16_0_iff. lia.
 Qed.
+
+Lemma rfc1071_representative buf init :
+  rfc1071 buf init <= 65535 /\
+  (rfc1071 buf init = 0 <-> init = 0 /\ Forall (fun b => b = 0) buf) /\
+  rfc1071 buf init mod 65535 = (init + sum16 buf) mod 65535.
+Proof. split; [apply rfc1071_range|]. split; [apply rfc1071_range|apply fold16_mod]. Qed.
 
 Lemma rfc1071_mod buf init : rfc1071 buf init mod 65535 = (init + sum16 buf) mod 65535.
 Proof. apply fold16_mod. Qed.
